@@ -47,7 +47,10 @@ pub fn cases(ctx: &Ctx) -> Vec<Case> {
     let k = ctx.k;
     let mut rng = Rng::derive(ctx.seed, &[0xC17]);
     let n = if ctx.quick() { 240 } else { 4000 };
-    let names = ["a.txt", "empty", "with space.bin", "é日本語.dat", "sub/b.bin", "sub/deep/er/c", "sub/with space/d d", "z-last", "sub2/ü", "UPPER.TXT"];
+    let long_a = format!("long-directory-name-{}/another-long-directory-{}/yet-another-{}/file-with-a-long-name.dat", "a".repeat(28), "b".repeat(29), "c".repeat(26));
+    let long_b = format!("{}/{}", "d".repeat(120), "e".repeat(200));
+    let long_c = format!("unicode-é日本語-{}/ü{}", "日".repeat(30), "ß".repeat(40));
+    let names = ["a.txt", "empty", "with space.bin", "é日本語.dat", "sub/b.bin", "sub/deep/er/c", "sub/with space/d d", "z-last", "sub2/ü", "UPPER.TXT", long_a.as_str(), long_b.as_str(), long_c.as_str(), "sub/ninety-nine-bytes-path-padding-padding-padding-padding-padding-padding-padding-padding-pad"];
     for i in 0..n {
         let nf = 1 + rng.usize_below(6);
         let mut tree: BTreeMap<String, u64> = BTreeMap::new();
@@ -328,6 +331,9 @@ pub fn run_case(ctx: &mut Ctx, c: &Case) {
         std::fs::create_dir_all(p.parent().unwrap()).unwrap();
         let data = rng.bytes(*size as usize);
         std::fs::write(&p, &data).unwrap();
+        if rel.len() + 3 > 100 {
+            ctx.count("name_longer_than_100_bytes");
+        }
         expected.insert(format!("in/{rel}"), data);
     }
     // keys: generated by the tool itself, plus the repository's Ed25519 sample pair
